@@ -231,6 +231,7 @@ func (x *Exec) reflIndex(st *State, v, i *Term) *Term {
 	x.assumeLoaded(st, elem, tAny)
 	gen := tt.UF("reflIndex$", "Val", v, x.toMathInt(i))
 	x.addFact(x.wfVal(gen))
+	x.addFact(tt.Implies(x.isJSON(v), x.isJSON(elem)))
 	return tt.Ite(tt.And(tt.Is("vslice", v), tt.Eq(x.tagOf(v), x.tidLit(anyT))), elem, gen)
 }
 
@@ -479,4 +480,25 @@ func (x *Exec) applyIfaceContract(fr *Frame, st *State, con *Contract, recv *Ter
 		return results[0]
 	}
 	return &Agg{Elems: results, T: res}
+}
+
+// isJSON: the dynamic value is a JSON value as produced by encoding/json with UseNumber or not (nil, bool, float64,
+// json.Number, string, []interface{}, map[string]interface{}), deeply. The deep part is unfolded where elements are
+// extracted (reflIndex, map lookups, range), relative to the heap at that point.
+func (x *Exec) isJSON(v *Term) *Term {
+	tt := x.tt
+	j := tt.UF("spec$isJSON", "Bool", v)
+	if v.hasBound {
+		return j
+	}
+	if !x.jsonSeen[v.id] {
+		x.jsonSeen[v.id] = true
+		tag := x.tagOf(v)
+		shallow := tt.Or(tt.Is("vnil", v),
+			tt.Eq(tag, x.tidLit(tBool)), tt.Eq(tag, x.tidLit(tFloat64)), tt.Eq(tag, x.tidLit(tString)),
+			tt.Eq(tag, x.tidLit(x.lookupType("encoding/json.Number"))),
+			tt.Eq(tag, x.tidLit(types.NewSlice(tAny))), tt.Eq(tag, x.tidLit(types.NewMap(tString, tAny))))
+		x.addFactRaw(tt.Implies(j, shallow))
+	}
+	return j
 }
